@@ -25,7 +25,7 @@ struct traits< Eigen::Map<const RnTangent<_Scalar, _N>,0> >
   using typename traits<const RnTangent<_Scalar, _N>>::Scalar;
   using traits<const RnTangent<_Scalar, _N>>::DoF;
   using DataType = ::Eigen::Map<const Eigen::Matrix<Scalar, DoF, 1>, 0>;
-  using Base = RnTangentBase<const Eigen::Map<RnTangent<Scalar, _N>, 0>>;
+  using Base = RnTangentBase<Eigen::Map<const RnTangent<Scalar, _N>, 0>>;
 };
 
 } // namespace internal
